@@ -69,6 +69,29 @@ func corpus() []Case {
 			{Txs: []TxSpec{dep(0, "20", "gk-b", 0, "gk-a"), dep(0, "5", "gk-c", 1, "gk-c")}}, // same seed, same receiver: same one-time key
 			{Txs: []TxSpec{{Kind: "reuse", Reuse: &Ref{Step: 1, Tx: 1}}}},
 		}},
+		{Name: "corpus-references-to-pending-unknown-and-finalized-transactions", Steps: []StepSpec{
+			{Txs: []TxSpec{dep(0, "1000", "rf-a", 0, "rf-a"), dep(0, "500", "rf-b", 1, "rf-b"), dep(0, "300", "rf-c", 2, "rf-c")}},
+			// snapshot A: the submit is validated, locked and stored, the snapshot is refused (second member)
+			{Txs: []TxSpec{
+				{Kind: "withdraw", Asset: 0, In: []Ref{{0, 0, 0}}, Outs: []OutSpec{{Type: "submit", Amount: "400"}, {Type: "script", Amount: "600", To: 0, Seed: "rf-d"}}},
+				{Kind: "deposit", Asset: 0, Amount: "1", DepTx: "rf-x", Outs: []OutSpec{{Type: "script", Amount: "1", To: 0, Seed: "rf-x"}}, BadSig: true}}},
+			// snapshot B: a claim of the pending submit must be refused
+			{Txs: []TxSpec{{Kind: "claim", Asset: 0, In: []Ref{{0, 1, 0}}, Claim: &Ref{Step: 1, Tx: 0}, Outs: []OutSpec{
+				{Type: "claim", Amount: "0.0001"}, {Type: "script", Amount: "499.9999", To: 1, Seed: "rf-e"}}}}},
+			// transfers referencing a pending, an unknown and a finalized transaction
+			{Txs: []TxSpec{{Kind: "transfer", Asset: 0, In: []Ref{{0, 2, 0}}, Refs: []Ref{{Step: 1, Tx: 0}}, Outs: []OutSpec{{Type: "script", Amount: "300", To: 2, Seed: "rf-f"}}}}},
+			{Txs: []TxSpec{{Kind: "transfer", Asset: 0, In: []Ref{{0, 2, 0}}, Refs: []Ref{{Step: -1, Tx: 1}}, Outs: []OutSpec{{Type: "script", Amount: "300", To: 2, Seed: "rf-g"}}}}},
+			{Txs: []TxSpec{{Kind: "transfer", Asset: 0, In: []Ref{{0, 2, 0}}, Refs: []Ref{{Step: 0, Tx: 0}}, Outs: []OutSpec{{Type: "script", Amount: "300", To: 2, Seed: "rf-h"}}}}},
+			// a submit and its claim in one batch: the claim is refused (the submit is not finalized yet)
+			{Txs: []TxSpec{
+				{Kind: "withdraw", Asset: 0, In: []Ref{{5, 0, 0}}, Outs: []OutSpec{{Type: "submit", Amount: "100"}, {Type: "script", Amount: "200", To: 2, Seed: "rf-i"}}},
+				{Kind: "claim", Asset: 0, In: []Ref{{0, 1, 0}}, Claim: &Ref{Step: 6, Tx: 0}, Outs: []OutSpec{
+					{Type: "claim", Amount: "0.0001"}, {Type: "script", Amount: "499.9999", To: 1, Seed: "rf-j"}}}}},
+			// snapshot A's submit finalized at last, then its claim is accepted and written
+			{Txs: []TxSpec{{Kind: "reuse", Reuse: &Ref{Step: 1, Tx: 0}}}},
+			{Txs: []TxSpec{{Kind: "claim", Asset: 0, In: []Ref{{0, 1, 0}}, Claim: &Ref{Step: 1, Tx: 0}, Outs: []OutSpec{
+				{Type: "claim", Amount: "0.0001"}, {Type: "script", Amount: "499.9999", To: 1, Seed: "rf-k"}}}}},
+		}},
 		{Name: "corpus-mint-then-deposits", Steps: []StepSpec{
 			{Direct: true, Txs: []TxSpec{{Kind: "mint", Asset: 0, Amount: "5000", Batch: 1, Outs: []OutSpec{{Type: "script", Amount: "5000", To: 0, Seed: "mint-a"}}}}},
 			{Txs: []TxSpec{dep(0, "100", "mt-a", 0, "mt-a"), dep(2, "59999", "mt-b", 1, "mt-b")}},
@@ -173,7 +196,7 @@ func (h *hist) genSpend(r *vh.Rand, used map[Ref]bool) *TxSpec {
 	want := -1
 	kind := []string{"transfer", "transfer", "transfer", "withdraw", "withdraw", "claim"}[r.Intn(6)]
 	if kind == "claim" {
-		if len(h.submits) == 0 {
+		if len(h.submits) == 0 && len(h.pendingSubmits()) == 0 {
 			kind = "transfer"
 		} else {
 			want = 0
@@ -212,10 +235,28 @@ func (h *hist) genSpend(r *vh.Rand, used map[Ref]bool) *TxSpec {
 			sp.Outs = splitOuts(h, r, total, 1)
 			break
 		}
-		s := h.submits[r.Intn(len(h.submits))]
+		var s Ref
+		if len(h.submits) > 0 {
+			s = h.submits[r.Intn(len(h.submits))]
+		}
+		if ps := h.pendingSubmits(); len(ps) > 0 && (len(h.submits) == 0 || r.Chance(1, 2)) {
+			s = ps[r.Intn(len(ps))] // stored by a refused snapshot, not finalized
+		}
 		sp.Claim = &s
 		sp.Outs = []OutSpec{{Type: "claim", Amount: decimal(fee)}}
 		sp.Outs = append(sp.Outs, splitOuts(h, r, new(big.Int).Sub(total, fee), 1)...)
+	}
+	if sp.Kind != "claim" && r.Chance(1, 5) { // references: finalized, pending or unknown transactions
+		for n := 1 + r.Intn(2); n > 0; n-- {
+			switch x := r.Intn(6); {
+			case x < 3 && len(h.finals) > 0:
+				sp.Refs = append(sp.Refs, h.finals[r.Intn(len(h.finals))])
+			case x < 5 && len(h.stale) > 0:
+				sp.Refs = append(sp.Refs, h.stale[r.Intn(len(h.stale))])
+			default:
+				sp.Refs = append(sp.Refs, Ref{Step: -1, Tx: r.Intn(1000)})
+			}
+		}
 	}
 	if r.Chance(1, 20) { // outputs do not add up to the inputs
 		last := &sp.Outs[len(sp.Outs)-1]
@@ -279,7 +320,23 @@ func (h *hist) genStep(r *vh.Rand) StepSpec {
 			}
 		}
 	}
+	if len(sp.Txs) > 0 && sp.Txs[0].Kind == "withdraw" && r.Chance(1, 3) {
+		d := h.genDeposit(r)
+		d.BadSig = true
+		sp.Txs = append(sp.Txs, d)
+	}
 	return sp
+}
+
+// pendingSubmits: withdrawal submits stored by a refused snapshot, not finalized.
+func (h *hist) pendingSubmits() []Ref {
+	var out []Ref
+	for _, s := range h.stale {
+		if b := h.lookup(s); b != nil && b.spec.Kind == "withdraw" {
+			out = append(out, s)
+		}
+	}
+	return out
 }
 
 // generate builds one random history while executing it: the next step is
